@@ -1,3 +1,5 @@
 open Datatypes
 
 val add : nat -> nat -> nat
+
+val sub : nat -> nat -> nat
